@@ -46,6 +46,7 @@ def txt(n):
 
 
 REMOVERS = {}       # name -> index of the child argument among the call's arguments (receiver excluded); filled by find_removers()
+REMOVER_CLEARS = set()   # removers that clear the parent link of the child they unlist themselves (`child._parent = None` after the unlisting)
 
 
 def find_removers(repo):
@@ -54,6 +55,7 @@ def find_removers(repo):
     `<collection>._children.remove(<child parameter>)` and refreshes the views of the collection it unlisted from.  Contract (checked as E1 of the helper itself): it unlists at most the given child and leaves the
     child's parent link to the caller."""
     REMOVERS.clear()
+    REMOVER_CLEARS.clear()
     found = []
     for m, qn, fn, cl in repo.all_functions():
         params = [a.arg for a in fn.args.posonlyargs + fn.args.args]
@@ -69,7 +71,17 @@ def find_removers(repo):
             idx = params.index(child) - (1 if cl is not None else 0)
             REMOVERS[fn.name] = idx
             found.append((m, qn, fn))
+            # does the helper orphan the child itself?  (a store `child._parent = None` that follows the unlisting in the same block or function tail)
+            if any(isinstance(a_, ast.Assign) and len(a_.targets) == 1 and isinstance(a_.targets[0], ast.Attribute) and a_.targets[0].attr == "_parent"
+                   and isinstance(a_.targets[0].value, ast.Name) and a_.targets[0].value.id == child and isinstance(a_.value, ast.Constant) and a_.value.value is None
+                   for a_ in ast.walk(fn)):
+                REMOVER_CLEARS.add(fn.name)
     return found
+
+
+def _remover_name(c):
+    f_ = c.func
+    return f_.id if isinstance(f_, ast.Name) else (f_.attr if isinstance(f_, ast.Attribute) else None)
 
 
 def _remover_call(c):
@@ -91,7 +103,7 @@ class TreeClient(BaseClient):
 
     pending flags:  PSNL LPC UPK STALE DUP      facts (never pending):  DETACHED PARENT_NONE EMPTYVIEW
     """
-    NONPENDING = ("DETACHED", "PARENT_NONE", "EMPTYVIEW", "WAS_PARENTLESS", "REMOVER_DECIDED")
+    NONPENDING = ("DETACHED", "PARENT_NONE", "EMPTYVIEW", "WAS_PARENTLESS", "REMOVER_DECIDED", "EMPTIED")
 
     def __init__(self, fn, raising):
         self.fn, self.raising = fn, raising
@@ -156,7 +168,7 @@ class TreeClient(BaseClient):
             return {frozenset(w)}
         # truthiness of rec_obj_remover(parent, child): True iff child was unlisted
         if isinstance(test, ast.Call) and _remover_call(test) is not None:
-            if branch:
+            if branch and _remover_name(test) not in REMOVER_CLEARS:
                 w.add(("UPK", self.key(_remover_call(test))))
             w.add(("REMOVER_DECIDED", txt(test)))
             return {frozenset(w)}
@@ -206,6 +218,9 @@ class TreeClient(BaseClient):
                                 S.discard(("UPK", k))
                             elif ("DETACHED", k) in S or ("PARENT_NONE", k) in S:
                                 pass
+                            elif any(x[0] == "EMPTIED" for x in S):
+                                pass        # the children list was replaced by an empty one before: nothing this collection lists loses its parent
+                                #             (E7 makes sure the object was drawn from the old direct listing)
                             else:
                                 S.add(("LPC", k))
                             S.add(("PARENT_NONE", k))
@@ -222,6 +237,9 @@ class TreeClient(BaseClient):
                             S = {x for x in S if x[0] != "PSNL"}
                         elif self._excludes_cleared(s.value):
                             S = {x for x in S if x[0] != "LPC"}
+                        S = {x for x in S if x[0] != "EMPTIED"}
+                        if isinstance(s, ast.Assign) and isinstance(s.value, ast.List) and not s.value.elts:
+                            S.add(("EMPTIED", txt(t.value)))
                         S.add(("STALE", txt(t.value)))
                         return S
                     each(f)
@@ -267,9 +285,10 @@ class TreeClient(BaseClient):
                 if any(("REMOVER_DECIDED", txt(c)) in x for x in worlds):
                     continue  # outcome already fixed by the branch this call is the condition of
                 # result not inspected: the child may or may not have been found and unlisted
-                def f(S, k=k):
+                def f(S, k=k, clears=_remover_name(c) in REMOVER_CLEARS):
                     a, b = set(S), set(S)
-                    a.add(("UPK", k))
+                    if not clears:
+                        a.add(("UPK", k))
                     return [a, b]
                 each(f)
         # remember "had no parent" at the moment a parent is set (PARENT_NONE is dropped by the store)
